@@ -577,6 +577,12 @@ def generate_round5(bdir):
                         shape(f, {"error": True, "find_or_load_object": True, "object_visible": True, "load_virtual_object": True,
                                   "get_empty_object": False, "make_new_name": True, "init_object": True,
                                   "give_uid_to_object": True, "enter_object_hash": True, "call_create": True})))
+    f = ast_function(bdir, "lib/lpc/operator.c", "f_bind")
+    L.append(lean_shape("bindShape", "f_bind: same owner = nothing to do; bindability; master valid_bind (non-catching apply, 3 arguments: "
+                        "doer, old owner, new owner); refusal iff !MASTER_APPROVED = error; only then the new owner is set",
+                        [t for t in shape(f, {"apply_master_ob": True, "safe_apply_master_ob": True, "apply": True, "error": True},
+                                          fields=("owner",))
+                         if "func_ref" not in t and "hdr.args" not in t]))
     f = ast_function(bdir, "src/simulate.c", "init_object")
     L.append(lean_shape("initObjectShape", "init_object: nothing but give_uid_to_object",
                         shape(f, {"give_uid_to_object": True})))
